@@ -26,7 +26,9 @@ Files == <<
      Setup("#    ", "430", "\""), Ver("# ", "4.3.0", "'\""), Cpy("2024", "CRS") >>,
   \* files that consist of ONE line (index 6 with, index 7 without a final newline)
   << Sig("4.0.0", "\"") >>,
-  << Sig("4.0.0", "\"") >>
+  << Sig("4.0.0", "\"") >>,
+  \* a file that ends in blank lines (they are text like any other)
+  << Hdr("CRS", "4.0.0"), Txt(""), Txt("") >>
 >>
 
 Init == /\ fileIx \in 1..Len(Files) /\ cur = Files[fileIx] /\ hist = <<>> /\ outs = <<>>
